@@ -207,8 +207,12 @@ def bounded(rep, tier, seed):
                 break
     # navigation under both runners, including null members
     doc = {"owner": None, "tags": [{"Key": "a", "Value": None}, {"Key": "b", "Value": 1}], "spec": {"x": [1, 2.5, "s", True]}}
+    doc.update({'5"': 5, "rock'n'": 6, 'mid"dle': 7, "back\\": 8, "": 9, "k": {'in"ner"': 10}})
     paths = [("doc.owner", None), ('doc["owner"]', None), ("doc.tags[0].Value", None), ("doc.tags[1].Value", 1), ("doc.spec.x[1]", 2.5),
-             ('doc["spec"]["x"][3]', True), ("doc.spec.x[2]", "s"), ("doc.tags[0].Key", "a")]
+             ('doc["spec"]["x"][3]', True), ("doc.spec.x[2]", "s"), ("doc.tags[0].Key", "a"),
+             # keys with quote characters at the end / in the middle, a backslash, the empty key
+             ('doc["5\\""]', 5), ("doc['rock\\'n\\'']", 6), ('doc["mid\\"dle"]', 7), ('doc["back\\\\"]', 8), ('doc[""]', 9), ('doc["k"]["in\\"ner\\""]', 10),
+             ("doc['5\"']", 5), ('doc["rock\'n\'"]', 6)]
     for runner in (celpy.InterpretedRunner, celpy.CompiledRunner):
         celpy.CELParser.CEL_PARSER = None
         env = celpy.Environment(runner_class=runner)
@@ -226,7 +230,10 @@ def bounded(rep, tier, seed):
     enc = A.CELJSONEncoder()
     for v, want in ((ct.TimestampType("2009-02-13T23:31:30Z"), '"2009-02-13T23:31:30Z"'), (ct.DurationType("90s"), '"90s"'),
                     (ct.BytesType(b"\x00\xffhello"), json.dumps(base64.b64encode(b"\x00\xffhello").decode("ascii"))),
-                    (ct.TimestampType("2020-02-29T12:00:00+02:00"), '"2020-02-29T12:00:00+02:00"')):
+                    (ct.TimestampType("2020-02-29T12:00:00+02:00"), '"2020-02-29T12:00:00+02:00"'),
+                    (ct.DurationType("24h"), '"86400s"'), (ct.DurationType("25h"), '"90000s"'), (ct.DurationType("-30s"), '"-30s"'),
+                    (ct.DurationType("36h"), '"129600s"'), (ct.DurationType("-48h"), '"-172800s"'), (ct.DurationType("0s"), '"0s"'),
+                    (ct.TimestampType("2009-02-13T23:31:30-03:30"), '"2009-02-13T23:31:30-03:30"')):
         n += 1
         got = enc.encode(v)
         if got != want:
